@@ -122,6 +122,7 @@ void sim_yield(YKind k) {
     if (!t || !R.sched_on) return;
     if (++R.steps > R.step_budget) sim_die(98, "step budget exceeded (livelock or hang)");
     int y = t->yord++;
+    if (k == Y_MUTEX && t->ymutex.size() < 96) t->ymutex.push_back(y);
     if (R.tasks.size() < 2) return;
     if (k == Y_CALL) {
         R.call_yields++;
@@ -207,7 +208,7 @@ void task_finished(Task* t) {
 }
 
 void task_begin_op(Task* t, int op) {
-    t->cur_op = op; t->yord = 0; t->fs_nth.clear(); t->op_edge0 = t->edges; t->next_pre = 0;
+    t->cur_op = op; t->yord = 0; t->fs_nth.clear(); t->wmax_nth = -1; t->wmax_size = 0; t->ymutex.clear(); t->op_edge0 = t->edges; t->next_pre = 0;
     while (t->pre_i < t->preempts.size() && t->preempts[t->pre_i].first < op) t->pre_i++;
     if (t->pre_i < t->preempts.size() && t->preempts[t->pre_i].first == op) t->next_pre = t->op_edge0 + t->preempts[t->pre_i].second + 1;
 }
